@@ -905,6 +905,7 @@ def gen_fermionic(rng, sim, d):
 SHAPES_PF = [(1, 5), (1, 7), (2, 4), (2, 5), (2, 6), (2, 7), (3, 3), (3, 4), (3, 5), (1, 3), (2, 3), (3, 6)]
 SHAPES_G = [(1, 6), (2, 4), (2, 5), (3, 3), (3, 4), (1, 4), (2, 3)]
 
+MIN_CASES = 6
 ENV = {"OPENBLAS_NUM_THREADS": "1", "OMP_NUM_THREADS": "1", "NUMBA_NUM_THREADS": "2", "TF_NUM_INTRAOP_THREADS": "2",
        "TF_NUM_INTEROP_THREADS": "1", "XLA_FLAGS": "--xla_cpu_multi_thread_eigen=false"}
 
@@ -964,7 +965,8 @@ def run_shard(spec):
     else:
         shapes = None
     for i in range(int(spec["count"])):
-        if time.process_time() - c0 > float(spec["cpu"]) or time.time() - t0 > float(spec["wall"]):
+        # the first programs of a shard are the ones that reach every deciding counter: they always run
+        if i >= MIN_CASES and (time.process_time() - c0 > float(spec["cpu"]) or time.time() - t0 > float(spec["wall"])):
             ctx.obs.add("%s shard stopped by its time budget" % fam)
             break
         case = gen_case(rng, fam, i, shapes, quick)
